@@ -16,6 +16,8 @@ class Sim:
         self.a = self.x = self.y = 0
         self.n = self.z = self.c = self.v = False
         self.stack = []
+        self.types = {}
+        self.tables = []
         cur = None
         for raw in text.split("\n"):
             m = re.match(r"FUNCTION (\w+) size=", raw)
@@ -27,6 +29,25 @@ class Sim:
             if m:
                 self.consts[m.group(1)] = int(m.group(2))
                 continue
+            m = re.match(r"VAR (\w+) type=(\w+) size=(\d+) const=(\w+)", raw)
+            if m:
+                # lay the variable out with its real size (arrays longer than the default spacing must not run into the next symbol)
+                name, ty, size, const = m.group(1), m.group(2), int(m.group(3)), m.group(4) == "true"
+                if name not in self.consts and name not in self.sym:
+                    elem = 1 if ty in ("Char", "CharPtr") else 2
+                    nbytes = (size * elem) if (const or ty in ("Char", "Short")) else 2
+                    self.types[name] = (ty, size)
+                    self.sym[name] = self.next_addr
+                    self.next_addr += max(16, (nbytes + 19) // 16 * 16)
+                continue
+            m = re.match(r"ARRAY (\w+) size=(\d+) = (.*)$", raw)
+            if m:
+                self.tables.append(("ints", m.group(1), [int(x) for x in m.group(3).split()]))
+                continue
+            m = re.match(r"PTRS (\w+) size=(\d+) = (.*)$", raw)
+            if m:
+                self.tables.append(("ptrs", m.group(1), m.group(3).split()))
+                continue
             if cur is None or not raw.strip() or raw.startswith(";"):
                 continue
             if not raw[0].isspace():
@@ -35,6 +56,21 @@ class Sim:
             else:
                 parts = raw.strip().split(None, 1)
                 self.lines.append((cur, parts[0], parts[1].split(";")[0].strip() if len(parts) > 1 else ""))
+        # initialised data: a table of chars is a run of bytes; a table of shorts / of addresses keeps its low bytes first, then its high bytes
+        for kind, name, vals in self.tables:
+            if name in self.consts:
+                continue
+            base = self.addr(name)
+            ty, size = self.types.get(name, ("CharPtr", len(vals)))
+            words = [(self.expr(v) if kind == "ptrs" else int(v)) & 0xffff for v in vals]
+            if kind == "ptrs" or ty in ("ShortPtr", "CharPtrPtr"):
+                n = max(size, len(words))
+                for i, w in enumerate(words):
+                    self.mem[base + i] = w & 0xff
+                    self.mem[base + n + i] = (w >> 8) & 0xff
+            else:
+                for i, w in enumerate(words):
+                    self.mem[base + i] = w & 0xff
         for k, v in (init or {}).items():
             self.poke_sym(k, v)
 
